@@ -305,6 +305,7 @@ GMFP_INV = [
     CMP + 'forall|i: int| old(new_moves)@.len() <= i < new_moves@.len() ==> legal_from(board, move_of(#[trigger] &new_moves@[i]), move_generation_mode)',
 ]
 GMFP = {
+    'isolated_loops': True,   # the big loop stays isolated: with the whole context visible its query does not finish
     'body_start': 'broadcast use axiom_boardstate_clone;',
     # C01 is the statement about full generation, C13 about capture-only generation; C02 / C05 cover every generated move,
     # so their runs keep the mode symbolic
